@@ -396,9 +396,20 @@ pub fn run(ctx: &mut Ctx) {
             Some(a) => a,
             None => continue,
         };
-        let (b, c) = match (long_partner(&mut r, &a, &tiv), long_partner(&mut r, &a, &tiv)) {
-            (Some(b), Some(c)) => (b, c),
-            _ => continue,
+        let (b, c) = if a.b.0.len() > 300 {
+            // the tree judge re-reads every intermediate through Display / parse / serde and
+            // probes all of them: with thousands of alternatives the partner is one plain window
+            // (what this size is for is stack depth and per-alternative bookkeeping, which one
+            // window exercises as well as eight)
+            match (operand_from_text(">=1.0.100 <1.0.2900"), operand_from_text(">=1.5.0 <1.2000.3")) {
+                (Some(b), Some(c)) => (b, c),
+                _ => continue,
+            }
+        } else {
+            match (long_partner(&mut r, &a, &tiv), long_partner(&mut r, &a, &tiv)) {
+                (Some(b), Some(c)) => (b, c),
+                _ => continue,
+            }
         };
         let deep = a.b.0.len() <= 300 && b.b.0.len() * c.b.0.len() <= 64;
         let leaves = vec![a, b, c];
